@@ -276,7 +276,7 @@ Print Assumptions C04_source_tests_known.
    nil when no action is needed, makes the escalate / de-escalate step, passes every error on as it
    is, counts the step and gives up with a privilege error beyond 2 * levels steps (all 96
    combinations evaluated; every test known); [C04_acquire_loop_step] is the model's round. *)
-From Scrapli Require Import AcquireSrc.
+From Scrapli Require Import AcquireSrc EscalateSrc.
 Theorem C04_acquire_priv_is_source : aq_table_ok = true /\ tests_known acquire_priv_code acquire_priv_known = true.
 Proof. exact acquire_priv_is_source. Qed.
 
